@@ -607,6 +607,29 @@ pub fn run(ctx: &mut Ctx) {
             ctx.obs_max(&format!("seeds.{o}"), n);
         }
     }
+    if ctx.shard == 0 && ctx.only.is_none() && std::env::var_os("GV_C01_DEBUG_SEEDS").is_some() {
+        crate::props::c01_extra::debug_seed_conversions(&pool);
+    }
+    if ctx.shard == 0 && ctx.only.is_none() {
+        // how deep the unmutated generator seeds parse: Ok / Err results per origin and entry
+        // (evidence that the seeds are valid enough to reach the code behind the headers)
+        for sd in pool.iter().filter(|s| !s.is_base()) {
+            for e in ENTRIES {
+                if !sd.wants(e) || !e.slots.iter().any(|sl| !slot_get(&sd.secs, *sl).is_empty()) {
+                    continue;
+                }
+                let p = P { enc: sd.enc, dwo: false, aarch64: false, seed: 7 };
+                if let Ok(mon) = crate::rt::capture(|| {
+                    let mut mon = Mon::new(600_000);
+                    dispatch(e.name, &PlainMk(p.enc.endian()), &sd.secs, &p, &mut mon);
+                    mon
+                }) {
+                    ctx.obs_n(&format!("seed_oks.{}.{}", sd.origin, e.name), mon.oks);
+                    ctx.obs_n(&format!("seed_errs.{}.{}", sd.origin, e.name), mon.errs);
+                }
+            }
+        }
+    }
     let mut lap = |ctx: &mut Ctx, name: &str, t0: &mut std::time::Instant| {
         ctx.obs_n(&format!("ms.{name}"), t0.elapsed().as_millis() as u64);
         *t0 = std::time::Instant::now();
